@@ -206,9 +206,26 @@ func cellFromCellBlock(b []byte) (*pb.Cell, uint32, error) {
 			"buffer is too small: expected %d, got %d", int(kvLen)+4, len(b))
 	}
 
+	// key length + value length + row length + family length + timestamp + type
+	const minKVLen = 4 + 4 + 2 + 1 + 8 + 1
+	if kvLen < minKVLen {
+		return nil, 0, fmt.Errorf(
+			"HBase has lied about KeyValue length: expected at least %d, got %d", minKVLen, kvLen)
+	}
+
 	rowKeyLen := binary.BigEndian.Uint32(b[4:8])
 	valueLen := binary.BigEndian.Uint32(b[8:12])
 	keyLen := binary.BigEndian.Uint16(b[12:14])
+	// check the lengths in 64 bits before slicing, so that neither a short
+	// buffer nor uint32 wrap-around gets past the checks
+	if total := 4 + 4 + uint64(rowKeyLen) + uint64(valueLen); total != uint64(kvLen) {
+		return nil, 0, fmt.Errorf("HBase has lied about KeyValue length: expected %d, got %d",
+			kvLen, total)
+	}
+	if uint64(rowKeyLen) < 2+uint64(keyLen)+1+8+1 {
+		return nil, 0, fmt.Errorf("HBase has lied about key length: %d with row length %d",
+			rowKeyLen, keyLen)
+	}
 	b = b[14:]
 
 	key := b[:keyLen]
@@ -216,6 +233,11 @@ func cellFromCellBlock(b []byte) (*pb.Cell, uint32, error) {
 
 	familyLen := b[0]
 	b = b[1:]
+	if uint64(rowKeyLen) < 2+uint64(keyLen)+1+uint64(familyLen)+8+1 {
+		return nil, 0, fmt.Errorf(
+			"HBase has lied about key length: %d with row length %d and family length %d",
+			rowKeyLen, keyLen, familyLen)
+	}
 
 	family := b[:familyLen]
 	b = b[familyLen:]
